@@ -511,6 +511,13 @@ func profileFor(prop string) *Profile {
 		p.SameBlock = 0.7
 		p.PBoundary = 0.4
 		p.PSlash = 0.1
+	case "C04":
+		p.TakeRates = []string{"0", "0.5", "0.99", "0.001", "0.5"}
+		p.PSlash = 0.12
+		p.Dust, p.Huge = 0.25, 0.4
+	case "C05":
+		p.PSlash, p.PEvidence, p.PDowntime = 0.12, 0.05, 0.05
+		p.MaxBlocks = 40
 	case "C20":
 		p.W["undelegate"], p.W["redelegate"] = 26, 22
 		p.SameBlock = 0.75
